@@ -11,7 +11,7 @@ use std::io::Cursor;
 pub const RULE: &str = "for every file of the seek corpus (channels × depth × seek-table shape × declared/unknown length; 16-sample frames + short final frame; plus grammar-built variable-blocksize streams with frames of 16/24/16/40/5 samples; position-identifying PCM; a subset again embedded behind 7 foreign bytes with the source positioned at the stream's start) and each seekable reader front-end, breadth-first exploration of ALL histories over the op alphabet {read(n), fill_buf, fill+consume(k), seek(Start/Current/End or sample)} to a fixpoint with exact-state de-duplication (key = source position, current sample, decoded frame, buffered remainder, consumed count, reference cursor); every transition is checked against a cursor over the reference PCM; distinct outcomes = (front, op kind, label)";
 pub const ASSUMPTIONS: &[&str] = &["argument values outside the op alphabet are not explored (the states they reach mostly are)", "behaviour of reads after a FAILED seek is unspecified by the property: only absence of panics is required until the next successful seek", "a byte-reader End-relative seek on a stream with undeclared total may fail (the end is unknowable without a full decode) but if it succeeds it must be exact"];
 pub fn bounds(quick: bool) -> Value {
-    json!({"files": format!("channels {{1,2,3,8}} × depth {{8,12,16,24,32}} × 6 seek-table shapes × declared/unknown + (3ch,20bit), (5ch,4bit), (2ch,31bit), (7ch,1bit) × 3 shapes; {} full frames + 5-sample final", if quick { 2 } else { 3 }), "fixpoint": true})
+    json!({"files": format!("channels {{1,2,3,8}} × depth {{8,12,16,24,32}} × 6 seek-table shapes × declared/unknown + (3ch,20bit), (5ch,4bit), (2ch,31bit), (7ch,1bit) × 3 shapes; {} full frames + 5-sample final", if quick { 2 } else { 6 }), "fixpoint": true})
 }
 
 pub fn oplist(front: Front, f: &TestFile) -> Vec<String> {
@@ -85,7 +85,7 @@ pub fn oplist(front: Front, f: &TestFile) -> Vec<String> {
 
 pub fn files(quick: bool) -> Vec<(u8, u32, &'static str, bool, usize)> {
     let mut v = Vec::new();
-    let nfull = if quick { 2 } else { 3 };
+    let nfull = if quick { 2 } else { 6 };
     for ch in [1u8, 2, 3, 8] {
         for bps in [8u32, 12, 16, 24, 32] {
             for var in SEEK_VARIANTS {
